@@ -38,8 +38,12 @@ SPECS = [("ij,j->i", 2), ("ij,jk->ik", 2), ("i,i->", 2), ("ij,ij->i", 2), ("ijk,
 
 
 class XGen:
-    def __init__(self, rng):
+    def __init__(self, rng, cplx: bool = False):
         self.rng = rng
+        # complex mode: complex128 leaves and real / imag / conj nodes (linear over the reals only: they must not
+        # be pushed through an einsum with a complex operand)
+        self.cplx = cplx
+        self.dtypes: dict[str, str] = {}
         self.phs: dict[str, tuple] = {}
         self.n_einsum = 0
         self.max_einsum = 3
@@ -50,7 +54,9 @@ class XGen:
         import pytato as pt
         nm = f"a{len(self.phs)}"
         self.phs[nm] = tuple(shape)
-        return pt.make_placeholder(nm, tuple(shape), np.float64)
+        dt = "complex128" if self.cplx and self.rng.random() < 0.7 else "float64"
+        self.dtypes[nm] = dt
+        return pt.make_placeholder(nm, tuple(shape), np.dtype(dt))
 
     def operand(self, shape, depth):
         """an array expression of exactly `shape`"""
@@ -72,7 +78,11 @@ class XGen:
         c = r.choice([2.0, -3.0, 0.5, 3, np.float64(1.5)])
         k = r.choice(["add", "sub", "smul", "muls", "divs", "sdivl", "mul", "pow", "sin", "neg", "index",
                       "transpose2", "reshape", "bcastadd", "bcastadd", "einsum", "add", "sub", "smul", "divs"])
+        if self.cplx and r.random() < 0.3:
+            k = r.choice(["real", "imag", "conj", "conj"])
         a = self.operand(shape, depth - 1)
+        if k in ("real", "imag", "conj"):
+            return getattr(pt, k)(a) if a.dtype.kind == "c" else a
         if k == "add":
             return a + self.operand(shape, depth - 1)
         if k == "sub":
@@ -194,12 +204,15 @@ def batch_distribute(ctx):
     cases = dis = composed = unchanged = 0
     pol_count = 0
     for pi in range(N):
-        g = XGen(rng)
+        g = XGen(rng, cplx=(pi % 4 == 3))
         expr = pt.transform.deduplicate(g.top())
         eins = einsum_nodes(expr)
         if not eins or len(eins) > 3:
             continue
-        inp = {nm: (nprng.integers(-4, 5, size=shp) / 2.0) for nm, shp in g.phs.items()}
+        inp = {nm: (nprng.integers(-4, 5, size=shp) / 2.0) + (1j * (nprng.integers(-4, 5, size=shp) / 2.0)
+                                                              if g.dtypes.get(nm) == "complex128" else 0.0)
+               for nm, shp in g.phs.items()}
+        inp = {nm: (v if g.dtypes.get(nm) == "complex128" else np.real(v)) for nm, v in inp.items()}
         try:
             ref = evaluate(expr, inp)
         except Exception as e:   # noqa: BLE001
